@@ -165,7 +165,9 @@ class Scoreboard:
                         if current_idx > eIdx:
                             current_idx = eIdx
 
-                        intervals.append(TimeInterval(self.idxToDate(start), self.idxToDate(current_idx)))
+                        # A run that lies wholly in the widened margin clips to nothing
+                        if start < current_idx:
+                            intervals.append(TimeInterval(self.idxToDate(start), self.idxToDate(current_idx)))
                     duration = 0
                     start = 0
             idx += 1
